@@ -104,6 +104,8 @@ fixed(['C13'], 'dd99e13', 'LPFhasKeyword matched a "]" of the input against the 
 fixed(['C13'], 'c5b4214', 'real MPS reader accepted nan / inf / overflowing numbers through atof(): non-finite coefficients, sides and bounds; exception XMAISM14 out of optimize(), heap-buffer-overflow in the bound flipping ratio test')
 
 fixed(['C06', 'C04'], '34e27f7', 'getBasisInd() read stale basis ids after rows/columns were removed while a basis is held (wrong or duplicate indices, SPxException "Invalid index"); a known finding of C06/C04 until the end of the work')
+fixed(['C08', 'C02', 'C01'], '1b7c70a', 'the simplifier compared the objective of an empty column with 0 using epsZero(); a rounding residue 2e-16 left by aggregations made default SoPlex report a bounded LP (optimum 0) as UNBOUNDED (findings/C08_verdict_unbounded_on_bounded.lp; C08 verdict.UNBOUNDED:{})')
+fixed(['C01', 'C08', 'C02'], '5132c2b', 'trivialHeuristic()/propagatePseudoobj() of the simplifier used the objective offset with the sign of the LP sense in maximization-form sums; after a multi-aggregation changed the offset a feasible minimization LP was reported INFEASIBLE by default SoPlex (findings/C01_default_infeasible_multiaggregation_offset.cpp; C01 complete.INFEASIBLE:{}+needs{simplifier})')
 
 # ------------------------------------------------------------------ open findings
 UND = r'(ABORT_CYCLING|RUNNING|UNKNOWN|ERROR|SINGULAR|NO_PROBLEM|NOT_INIT|OPTIMAL_UNSCALED_VIOLATIONS)'
@@ -132,6 +134,9 @@ open_(['C01', 'C09'], r'(user\.)?cert\.(slack|side):\{\}\+needs\{simplifier,scal
 open_(['C01'], r'cert\.(bound|side|slack):\{[^}]*scaler=0[^}]*\}.*',
       'scaling switched off (scaler=0) on badly scaled LPs: OPTIMAL is reported with sides / bounds violated far beyond the tolerance (0.375 and 40 on rows whose terms are below 1e6), with the Harris as well as the textbook ratio test; the final verification does not catch it', regex=True,
       repro='./vcheck C01 --tier thorough: keys C01:cert.side:{ratiotester=1,scaler=0}, C01:cert.side:{ensureray=1,ratiotester=1,representation=1,scaler=0}')
+open_(['C01'], r'(netlib\.)?cert\.[a-z\-]+\+terminated-despite-violations:.*',
+      'SPxSolverBase::solve() (spxsolve.hpp, both the ENTER and the LEAVE loop): when the algorithm has looped more than twice and the bound, side or objective range of the LP is >= 1e9 it prints "termination despite violations (numerical difficulties ...)" and sets the status to OPTIMAL whatever infeasibility remains; SoPlex then reports OPTIMAL with a row violated by 6 on sides of size 50 (badly scaled 9x3 LP, primal simplex, Harris ratio test, row representation); the key carries the annotation only when that message was printed during the solve', regex=True,
+      repro='findings/C01_terminated_despite_violations.json (./vcheck C01 --replay <file>)')
 open_(['C01'], r'(netlib\.)?complete\.NO_PROBLEM:.*',
       'a solve from scratch can end with status NO_PROBLEM (netlib scfxm1 with {min_markowitz=0.5,pricer=2,ratiotester=1,representation_switch=0.5}): the internal fallback after numerical trouble leaves the status unset', regex=True,
       repro='./vcheck C01 --tier thorough: key C01:netlib.complete.NO_PROBLEM:{min_markowitz=0.5,pricer=2,ratiotester=1,representation_switch=0.5}')
